@@ -3,6 +3,7 @@ package props
 
 import (
 	"sort"
+	"strings"
 
 	"rtpcheck/bounds"
 
@@ -34,3 +35,42 @@ func IDs() []string {
 }
 
 func sortStrings(s []string) { sort.Strings(s) }
+
+// missingAnchor: a function the rules are anchored in does not exist. For an exported function or
+// method this is a change of the library's API and the check cannot answer (checker failure); an
+// unexported helper may have been renamed, inlined or split by a refactoring, so the rows anchored in
+// it are reported as not decided instead of raising an alarm.
+func missingAnchor(r *core.Report, name string) {
+	last := name
+	if i := strings.LastIndex(name, "."); i >= 0 {
+		last = name[i+1:]
+	}
+	if last != "" && last[0] >= 'a' && last[0] <= 'z' {
+		r.Infof("anchor %s not found (unexported: renamed or inlined?): the rows anchored in it are not decided", name)
+		return
+	}
+	r.Fatalf("anchor %s missing", name)
+}
+
+func init() {
+	for name, hint := range map[string]string{
+		"codecs.(*H264Packet).parseBody":                    "fuaBuffer",
+		"codecs.(*VP9Packet).parsePictureID":                "PictureID",
+		"codecs.(*VP9Packet).parseLayerInfo":                "",
+		"codecs.(*VP9Packet).parseLayerInfoCommon":          "SID",
+		"codecs.(*VP9Packet).parseLayerInfoNonFlexibleMode": "TL0PICIDX",
+		"codecs.(*VP9Packet).parseRefIndices":               "PDiff",
+		"codecs.(*VP9Packet).parseSSData":                   "NG",
+		"codecs.(*VP9Payloader).payloadFlexible":            "",
+		"codecs.(*VP9Payloader).payloadNonFlexible":         "",
+		"codecs.newH265NALUHeader":                          "H265NALUHeader",
+		"codecs.emitNalus":                                  "",
+		"rtp.toNtpTime":                                     "",
+		"rtp.toTime":                                        "Time",
+	} {
+		core.AnchorNames[name] = true
+		if hint != "" {
+			core.AnchorHints[name] = hint
+		}
+	}
+}
